@@ -64,7 +64,7 @@ def run_domain(ctx, rng, w, actions, max_calls, bits, thorough):
             ctx.count("cases")
             b = model.binding(act_m, call)
             states, exhaustive = gen.covering_states(rng, wm, w, [(act_m.pre, b)], max_exhaustive_bits=bits,
-                                                     n_random=16 if thorough else 8)
+                                                     n_random=16 if thorough else 8, n_boundary=2)
             if exhaustive:
                 ctx.count("exhaustive_blocks")
             try:
